@@ -466,6 +466,8 @@ class ExprMixin:
             if i is None:
                 raise Unsupported("symbolic index into tuple")
             if not (-len(b.items) <= i < len(b.items)):
+                if self.spec_mode:
+                    return NONE  # partial term under a (necessarily false) guard
                 self.raise_builtin("IndexError")
             return b.items[i]
         if isinstance(b, VList):
